@@ -242,6 +242,12 @@ func Main(args []string) int {
 	case "meta":
 		writeJSON(*out, e.Meta())
 		return 0
+	case "gen":
+		// debugging aid: print the generated cases [from,to) as JSON lines
+		for i := *from; i < *to; i++ {
+			fmt.Fprintln(Out, string(e.Generate(uint64(*seed), i, *tier, active(known))))
+		}
+		return 0
 	}
 	fmt.Fprintf(os.Stderr, "verif-sim: unknown mode %q\n", args[1])
 	return 2
